@@ -2035,6 +2035,44 @@ def _c19_location(seed):
             return {"clause": "Location.%s gives %s but the library function for the location's "
                               "coordinates/elevation/depression/zone gives %s" % (name, ra, rb),
                     "seed": seed, "history": hist, "date": d.isoformat(), "local": local}
+    # a rejected zone assignment leaves the location as it was
+    before = (loc.timezone, loc.latitude, loc.longitude)
+    try:
+        loc.timezone = rng.choice(["Nowhere/Zone", "Europe/Lodnon"])
+        return {"clause": "an unknown time zone name was accepted", "seed": seed, "history": hist}
+    except ValueError:
+        pass
+    if (loc.timezone, loc.latitude, loc.longitude) != before:
+        return {"clause": "after a rejected time zone assignment the location reports %r, before it %r" % (
+            (loc.timezone, loc.latitude, loc.longitude), before), "seed": seed, "history": hist}
+    ra, rb = _try(lambda: loc.sunrise(d, True, elev)), _try(lambda: sun.sunrise(o, d, zoneinfo.ZoneInfo(before[0])))
+    if ra != rb:
+        return {"clause": "after a rejected time zone assignment Location.sunrise gives %s, the library for "
+                          "the zone it had before gives %s" % (ra, rb), "seed": seed, "history": hist}
+    # the date omitted: today in the location's zone (local=True) or in UTC (local=False), at a
+    # clock reading where those two dates differ
+    import corr_norm
+    zi = zoneinfo.ZoneInfo(loc.timezone)
+    for hh in (1, 12, 23):
+        now = datetime.datetime(d.year, d.month, d.day, hh, 30, tzinfo=datetime.timezone.utc)
+        with corr_norm.FrozenClock(now):
+            for lcl in (True, False):
+                tzx = zi if lcl else datetime.timezone.utc
+                want_d = now.astimezone(tzx).date()
+                for name, a, b in (
+                        ("sun", lambda: loc.sun(local=lcl, observer_elevation=elev),
+                         lambda: sun.sun(o, want_d, loc.solar_depression, tzx)),
+                        ("sunset", lambda: loc.sunset(local=lcl, observer_elevation=elev),
+                         lambda: sun.sunset(o, want_d, tzx)),
+                        ("noon", lambda: loc.noon(local=lcl), lambda: sun.noon(o0, want_d, tzx)),
+                        ("golden_hour", lambda: loc.golden_hour(di, local=lcl, observer_elevation=elev),
+                         lambda: sun.golden_hour(o, want_d, di, tzx))):
+                    ra, rb = _try(a), _try(b)
+                    if ra != rb:
+                        return {"clause": "Location.%s with the date omitted (local=%s) at clock reading %s gives "
+                                          "%s, the library for today's date there (%s) gives %s" % (
+                                              name, lcl, now.isoformat(), ra, want_d, rb),
+                                "seed": seed, "history": hist}
     return None
 
 
